@@ -18,8 +18,14 @@ type c16Rule struct {
 	supported bool
 }
 
-func c16Leaf(name string, now int64) c16Rule {
-	if vChoice(name+".kind", 0, 1) == 0 {
+func c16Leaf(name string, now int64) c16Rule { return c16LeafOf(name, now, true) }
+
+func c16LeafOf(name string, now int64, allowAge bool) c16Rule {
+	kindMax := 1
+	if !allowAge {
+		kindMax = 0
+	}
+	if vChoice(name+".kind", 0, kindMax) == 0 {
 		n := vNondetInt32(name + ".maxversions")
 		vAssume(n >= 0) // negative counts are not a valid rule (see C20 for robustness)
 		return c16Rule{pb: &btapb.GcRule{Rule: &btapb.GcRule_MaxNumVersions{MaxNumVersions: n}}, supported: true,
@@ -41,7 +47,8 @@ func c16RuleTree(now int64) c16Rule {
 	case 0:
 		return c16Leaf("rule", now)
 	case 1:
-		a, b := c16Leaf("rule.a", now), c16Leaf("rule.b", now)
+		// quick: the second member of a union is a max-versions rule (max-age arithmetic is the costly part)
+		a, b := c16Leaf("rule.a", now), c16LeafOf("rule.b", now, vBound("union-second-age", 0, 1) == 1)
 		return c16Rule{pb: &btapb.GcRule{Rule: &btapb.GcRule_Union_{Union: &btapb.GcRule_Union{Rules: []*btapb.GcRule{a.pb, b.pb}}}}, supported: true,
 			condemned: func(pos int, ts int64) bool { return vOr(a.condemned(pos, ts), b.condemned(pos, ts)) }}
 	}
@@ -58,7 +65,7 @@ func c16Seed(tbl *table, m *mState) {
 			max := 0
 			switch {
 			case r == 0 && f == 0:
-				max = 3
+				max = vBound("versions", 2, 3)
 			case r == 0 && f == 1:
 				max = 1
 			case r == 1 && f == 0:
@@ -82,7 +89,26 @@ func c16Seed(tbl *table, m *mState) {
 				col.Cells = append(col.Cells, &btpb.Cell{TimestampMicros: ts, Value: val})
 				m.cols[r][f][0] = append(m.cols[r][f][0], mCell{ts: ts, val: val, alive: true})
 			}
-			row.Families = append(row.Families, &btpb.Family{Name: fname, Columns: []*btpb.Column{col}})
+			cols := []*btpb.Column{col}
+			if r == 0 && f == 0 {
+				// a second column of the ruled family in the same row: 0..2 versions
+				n2 := vChoice("pre.n2", 0, 2)
+				if n2 > 0 {
+					col2 := &btpb.Column{Qualifier: m.quals[1]}
+					for i := 0; i < n2; i++ {
+						ts := vNondetInt64("pre.ts")
+						vAssume(vValidTS(ts))
+						if i > 0 {
+							vAssume(ts < col2.Cells[i-1].TimestampMicros)
+						}
+						val := vNondetBytes("pre.val", 1)
+						col2.Cells = append(col2.Cells, &btpb.Cell{TimestampMicros: ts, Value: val})
+						m.cols[r][f][1] = append(m.cols[r][f][1], mCell{ts: ts, val: val, alive: true})
+					}
+					cols = append(cols, col2)
+				}
+			}
+			row.Families = append(row.Families, &btpb.Family{Name: fname, Columns: cols})
 		}
 		if len(row.Families) > 0 {
 			tbl.rows.ReplaceOrInsert(row)
@@ -111,7 +137,7 @@ func H_C16_pass() {
 	mk("t")
 	mk("other")
 	keys := c01Keys("key", 2, 1)
-	quals := [][]byte{[]byte("q")}
+	quals := [][]byte{[]byte("q"), []byte("r")}
 	m := newMState(keys, quals)
 	c16Seed(s.tables[vTable], m)
 	// the other table holds one row that the rule would condemn entirely if it were applied there
@@ -126,9 +152,11 @@ func H_C16_pass() {
 	want := m.clone()
 	if rule.supported {
 		for r := range want.cols {
-			cs := want.cols[r][0][0]
-			for i := range cs {
-				cs[i].alive = vNot(rule.condemned(i, cs[i].ts))
+			for q := range want.cols[r][0] {
+				cs := want.cols[r][0][q]
+				for i := range cs {
+					cs[i].alive = vNot(rule.condemned(i, cs[i].ts))
+				}
 			}
 		}
 		vReach("c16-supported")
